@@ -17,6 +17,7 @@ cfg   : supports_distinct_on|except_all|intersect_all|wildcard cids   (0/1 flags
 
 infos : one entry per transform, separated by `;`: `n` (not looked at) or `s:<cids read>:<defined cid or ->`
 pdistinct  <cfg> <next> <pipe> <infos> -> ok next=<n> <pipe> | err
+pprune     <pipe> <infos>              -> ok <cids>/<cids>/..   (columns of the From / Join instances after prune_inputs, in pipeline order)
 punion     <pipe>              -> ok <pipe>
 pexcept    <cfg> <pipe>        -> ok <pipe> | err
 pintersect <cfg> <pipe>        -> ok <pipe> | err
@@ -174,6 +175,12 @@ def handle (fields : List String) : Option String :=
       | some (q, n') => some s!"ok next={n'} {showPipe q}"
       | none => some "err"
     | _, _, _, _ => some "bad-request"
+  | ["pprune", p, is] =>
+    match pipe p, infos is with
+    | some p, some is =>
+      if p.length != is.length then some "bad-request" else
+      some ("ok " ++ "/".intercalate ((pruneInputs (p.zip is)).map showCids))
+    | _, _ => some "bad-request"
   | ["punion", p] =>
     match pipe p with
     | some p => some s!"ok {showPipe (union p)}"
